@@ -296,6 +296,65 @@ def churn_reproducibility(ao):
     return bad, n
 
 
+def unseeded_variety(ao):
+    """"unseeded calls differ from each other": also when an unseeded OBJECT is re-initialised, and whatever the state of Python's own
+    `random` module is (re-seeded to the same value before each call) - fresh entropy is not the caller's stdlib stream"""
+    import random as pyrandom
+    from aotools.turbulence import infinitephasescreen as ips, phasescreen as ps
+    bad = []
+    for cls, kw in ((ips.PhaseScreenVonKarman, {}), (ips.PhaseScreenKolmogorov, dict(stencil_length_factor=2))):
+        obj = cls(5, 0.5, 0.2, 20.0, **kw)
+        seen = [_h(np.array(obj.scrn, copy=True))]
+        for _ in range(3):
+            obj.make_initial_screen()
+            seen.append(_h(np.array(obj.scrn, copy=True)))
+        if len(set(seen)) != len(seen):
+            bad.append(("rng:unseeded-object-repeats-after-reinitialisation", dict(cls=cls.__name__, distinct=len(set(seen)), realisations=len(seen))))
+    saved = pyrandom.getstate()
+    try:
+        for name, f in (("ft", ps.ft_phase_screen), ("ftsh", ps.ft_sh_phase_screen)):
+            seen = []
+            for _ in range(3):
+                pyrandom.seed(12345)
+                st0 = pyrandom.getstate()
+                seen.append(_h(f(0.2, 8, 0.1, 20.0, 0.01)))
+                if pyrandom.getstate() != st0:
+                    bad.append(("rng:python-random-stream-advanced-by:" + name, {}))
+                    break
+            if len(set(seen)) != len(seen):
+                bad.append(("rng:unseeded-screens-repeat-when-python-random-is-reseeded:" + name, dict(distinct=len(set(seen)))))
+    finally:
+        pyrandom.setstate(saved)
+    return bad
+
+
+def initial_screen_and_rows_use_different_deviates(ao):
+    """a seeded screen: the innovation of the FIRST added row is not made of deviates the initial screen was built from (the seed
+    stream is one stream; spec/RngIso.tla: NoDeviateUsedTwice).  b = B^-1 (row - A stencil), compared with the head of the seed stream."""
+    from aotools.turbulence import infinitephasescreen as ips
+    bad = []
+    for seed in (0, 3, 11):
+        obj = ips.PhaseScreenVonKarman(6, 0.5, 0.2, 20.0, random_seed=seed)
+        if not hasattr(obj, "A_mat") or not hasattr(obj, "B_mat"):
+            continue
+        w = np.array(obj._scrn, copy=True)
+        sc_ = np.asarray(obj.stencil_coords)
+        st = w[(sc_[:, 0], sc_[:, 1])]
+        obj.add_row()
+        e = np.asarray(obj._scrn)[0] - np.asarray(obj.A_mat).dot(st)
+        try:
+            b = np.linalg.solve(np.asarray(obj.B_mat, float), e)
+        except np.linalg.LinAlgError:
+            continue
+        head = np.random.default_rng(seed).normal(size=2 * w.shape[0] * w.shape[0] + 200)
+        used_by_initial_screen = head[:2 * w.shape[0] * w.shape[0]]
+        hits = [int(np.argmin(np.abs(used_by_initial_screen - v))) for v in b if np.abs(used_by_initial_screen - v).min() < 1e-7 * max(1.0, abs(v))]
+        if len(hits) == len(b):
+            bad.append(("rng:row-innovation-reuses-deviates-of-the-initial-screen", dict(seed=seed, positions=hits[:6])))
+            break
+    return bad
+
+
 def run(run):
     ao = core.import_aotools()
     quick = run.tier == "quick"
@@ -343,6 +402,9 @@ def run(run):
         run.violation(key, detail, dict(kind="fork"))
     run.traces += 1
     with np.errstate(all="ignore"):
+        for key, detail in unseeded_variety(ao) + initial_screen_and_rows_use_different_deviates(ao):
+            run.violation(key, detail, dict(kind="variety"))
+        run.traces += 2
         badc, nc = churn_reproducibility(ao)
     run.traces += nc
     run.aux["reproductions_after_memory_traffic"] = nc
@@ -364,6 +426,11 @@ def run(run):
 def replay(run, case):
     ao = core.import_aotools()
     warnings.simplefilter("ignore")
+    if case.get("kind") == "variety":
+        with np.errstate(all="ignore"):
+            for key, detail in unseeded_variety(ao) + initial_screen_and_rows_use_different_deviates(ao):
+                run.violation(key, detail, case)
+        return
     if case.get("kind") == "churn":
         for key, detail in churn_reproducibility(ao)[0]:
             run.violation(key, detail, case)
